@@ -432,14 +432,14 @@ func checkC10(r *Run) {
 				r2.Bad(key, in.Pos(), "Transport.Write is called outside BaseClient.write: this writer is not serialised with the others and packets can interleave on the wire")
 				return
 			}
-			if la.at[in]["BaseClient.muWrite"] != 'w' {
+			if la.at[in][lockID("BaseClient."+aliasField("BaseClient", "muWrite"))] != 'w' {
 				r2.Bad(key, in.Pos(), "Transport.Write is called without the shared client's muWrite held (held: %s): concurrent writers — the reader goroutine's acknowledgements, pings, other callers — can interleave their bytes inside a packet", la.at[in])
 				return
 			}
 			// whole buffer in one critical section: no Unlock between loop iterations
 			isUnlock := func(x ssa.Instruction) bool {
 				lo := c.lockOpOf(x)
-				return lo != nil && !lo.Defer && lo.Field.Name() == "muWrite" && lo.Op == "Unlock"
+				return lo != nil && !lo.Defer && lo.Field.Name() == aliasField("BaseClient", "muWrite") && lo.Op == "Unlock"
 			}
 			if _, again := CanReach(f, in, func(x ssa.Instruction) bool { return x == in }, PathQ{BlockInstr: func(x ssa.Instruction) bool { return !isUnlock(x) && false }}); again {
 				if _, viaUnlock := CanReach(f, in, isUnlock, PathQ{BlockInstr: func(x ssa.Instruction) bool { return x == in }}); viaUnlock {
